@@ -1,5 +1,6 @@
 //! vrt: run-time checks over the compiled type zoo.
 mod c03;
+mod c05;
 mod c06;
 mod common;
 mod uper;
@@ -12,6 +13,7 @@ fn main() {
         "C01" => uper::run_c01(ctx),
         "C02" => uper::run_c02(ctx),
         "C03" => c03::run(ctx),
+        "C05" => c05::run(ctx),
         "C06" => c06::run(ctx),
         other => {
             eprintln!("vrt does not serve {other}");
